@@ -109,7 +109,12 @@ class TdmsWriter(object):
         if self._file_path is not None:
             self._file = open(self._file_path, self._file_mode + 'b')
             if self._index_file_path is not None:
-                self._index_file = open(self._index_file_path, self._file_mode + 'b')
+                try:
+                    self._index_file = open(self._index_file_path, self._file_mode + 'b')
+                except Exception:
+                    # Don't leave the data file open if the index file can't be opened
+                    self._file.close()
+                    raise
 
     def close(self):
         if self._file_path is not None:
